@@ -120,6 +120,7 @@ class SNum(Model):
     kinds = ("ndarray",)
     shape = ()
     assumptions = []
+    symbolic_number = True
 
     def __init__(self, r):
         self.r = R(r)
@@ -287,8 +288,26 @@ def isclose(a, b, *args, **kw):
     return True
 
 
+def _extreme(name):
+    """np.max / np.min over raw numbers: exact when they are all known, otherwise an opaque symbol whose value (and sign) is computed from
+    its arguments wherever an expression is evaluated at a point of an orthant"""
+    def f(xs, *a, **k):
+        flat = []
+        for x in (xs if isinstance(xs, (list, tuple)) else [xs]):
+            flat.append(x if isinstance(x, SNum) else SNum(R(x)))
+        rs = [x.r for x in flat]
+        try:
+            vals = [r_.as_poly().const_value() for r_ in rs if r_.as_poly().is_const()]
+        except Exception:
+            vals = []
+        if len(vals) == len(rs):
+            return SNum(R(Poly.const({"max": max, "min": min}[name](vals))))
+        return SNum(R(Poly.sym(Fn(name, *rs))))
+    return f
+
+
 def hooks():
-    h = core_hooks({"numpy.sqrt": ssqrt, "numpy.isclose": isclose, "math.isclose": isclose, "numpy.zeros": lambda *a, **k: SNum(0), "numpy.abs": lambda x: x,
+    h = core_hooks({"numpy.max": _extreme("max"), "numpy.amax": _extreme("max"), "numpy.min": _extreme("min"), "numpy.amin": _extreme("min"), "numpy.sqrt": ssqrt, "numpy.isclose": isclose, "math.isclose": isclose, "numpy.zeros": lambda *a, **k: SNum(0), "numpy.abs": lambda x: x,
                     "numpy.where": lambda c, a, b: a if c else b})
     h["class"] = {"core/array.py::Array": array_factory}
     h["builtins"] = {"print": lambda *a, **k: None}
@@ -333,6 +352,8 @@ def numeric(r, point):
             for s_, e in mono:
                 if isinstance(s_, Fn) and s_.name == "sqrt":
                     x *= math.sqrt(numeric(s_.args[0], point)) ** e
+                elif isinstance(s_, Fn) and s_.name in ("max", "min"):
+                    x *= {"max": max, "min": min}[s_.name](numeric(a_, point) for a_ in s_.args) ** e
                 else:
                     x *= float(point[s_]) ** e
             tot += x
